@@ -24,7 +24,7 @@ from dissononce.dh.x25519.x25519 import X25519DH
 ID = "C04"
 LEVEL = "exploration"
 RULE = ("generated: variant in {XX without stored server key, IK with the right key, IK with a stale key}, edge routing info on/off, "
-        "phone / push name / passive flag, chunk sizes for every server byte string (incl. 1-byte chunks), 0-3 server stanzas coalesced "
+        "phone / push name / passive flag, configuration object in memory or a profile directory on disk (loaded and written by YowProfile), chunk sizes for every server byte string (incl. 1-byte chunks), 0-3 server stanzas coalesced "
         "with the handshake reply, 0-4 stanzas in each direction afterwards, a schedule of up to 200 choices for the interleaving of "
         "handshake worker and network thread, a history prefix of 0-2 attempts cut off before / during (after the client hello) / "
         "after the handshake (closed by the peer, or closed on request of the layer above from inside the delivery of a stanza that shares "
@@ -75,12 +75,28 @@ def run_case(case):
     elif variant == "IK_stale":
         kw["server_static_public"] = PublicKey(bytes(_dh.generate_keypair().public.data))
     cfg = Config(**kw)
-    rig = TR.Rig(choices=case.get("choices", ()), config=cfg, server=server, preempt=case.get("preempt"))
+    home = None
+    if case.get("real_profile"):
+        # the account's configuration lives in a profile directory on disk and is loaded / written by YowProfile itself
+        from ..kit import env as envkit
+        from yowsup.config.manager import ConfigManager
+        from yowsup.profile.profile import YowProfile
+        home = envkit.fresh_home("c04")
+        ConfigManager().save(phone, cfg)
+        profile = YowProfile(phone)
+        cfg = profile.config
+        rig = TR.Rig(choices=case.get("choices", ()), profile=profile, write_config="real", server=server, preempt=case.get("preempt"))
+        out.label("profile_on_disk")
+    else:
+        rig = TR.Rig(choices=case.get("choices", ()), config=cfg, server=server, preempt=case.get("preempt"))
     rig.top.passive = bool(case.get("passive"))
     try:
         return _run(case, out, rig, server, cfg, variant, phone)
     finally:
         rig.close()
+        if home:
+            from ..kit import env as envkit
+            envkit.drop_home(home)
 
 
 def _run(case, out, rig, server, cfg, variant, phone):
@@ -256,6 +272,23 @@ def _run(case, out, rig, server, cfg, variant, phone):
     elif new_writes:
         out.fail("config", "config:rewritten_although_key_unchanged", {"writes": len(new_writes)})
         return out
+    if case.get("real_profile"):
+        # what a later process finds in the profile: the server's key, and the account's own key pair untouched
+        from yowsup.profile.profile import YowProfile
+        try:
+            disk = YowProfile(phone).config
+        except Exception as e:
+            out.fail("config", "config:profile_does_not_load_after_login:%s" % type(e).__name__, {"error": repr(e)[:200]})
+            return out
+        got_key = bytes(disk.server_static_public.data) if disk is not None and disk.server_static_public else None
+        if got_key != server_key:
+            out.fail("config", "config:server_key_in_profile_differs", {"stored": got_key.hex() if got_key else None, "variant": variant})
+            return out
+        kp = disk.client_static_keypair
+        if kp is None or bytes(kp.private.data) != bytes(cfg.client_static_keypair.private.data) \
+                or bytes(kp.public.data) != bytes(cfg.client_static_keypair.public.data):
+            out.fail("config", "config:client_key_pair_in_profile_changed", {})
+            return out
     # ---- traffic afterwards, both directions, in order
     n_up = case.get("after_server", 0)
     n_down = case.get("after_client", 0)
@@ -339,6 +372,7 @@ def case_strategy():
             "after_client": draw(st.integers(0, 4)),
             "prefix": draw(st.lists(st.sampled_from(["before", "during", "during_partial", "after", "after_inside_delivery"]), min_size=0, max_size=2)),
             "corrupt": draw(st.sampled_from([False, False, False, False, True])),
+            "real_profile": draw(st.sampled_from([False, False, True])),
             "choices": draw(st.lists(st.integers(0, 5), min_size=n, max_size=n)),
         }
         if n == 0 and draw(st.booleans()):
